@@ -475,6 +475,22 @@ example : let batch : Nat → Nat := fun d => d - 256
     1 700 (by intro i hi; have : i = 0 := by omega
               subst this; decide)
 
+/-- **batched_ops** (DESIGN §6.2), both halves together: whatever the failure
+index, a batched loop stops on a batch boundary with no open transaction, and —
+for a loop whose batches remove eligible rows until none is left — running the
+operation again from any such boundary ends where the uninterrupted run ends. -/
+theorem batched_ops (m : Sem α β) (view : α → β) (ns : List Nat) (k : Option Nat) (d0 : α)
+    (batch : α → α) (isDone : α → Bool) (rem : α → Nat)
+    (hdone : ∀ d, isDone d = true ↔ rem d = 0) (hdec : ∀ d, isDone d = false → rem (batch d) < rem d) :
+    (∃ j, j ≤ ns.length ∧
+      (exec m (batches ns) k (quiescent view d0)).1.db = applyBatches m.eff 0 ns j d0 ∧
+      (exec m (batches ns) k (quiescent view d0)).1.tx = none ∧
+      ((exec m (batches ns) k (quiescent view d0)).2 = .done → j = ns.length)) ∧
+    (∀ j, (∀ i, i < j → isDone (batchIter batch i d0) = false) →
+      loop batch isDone (rem (batchIter batch j d0)) (batchIter batch j d0) = loop batch isDone (rem d0) d0) :=
+  ⟨batched_prefix m ns k (quiescent view d0) rfl,
+   fun j hj => batched_retry_converges batch isDone rem hdone hdec j d0 hj⟩
+
 /-- the batched entries of the table have no mirror and nothing around the transactions -/
 theorem codeShapes_batched (o : OpShape) (_ho : o ∈ codeShapes) (hk : o.kind = .batched)
     (m : Sem α β) (ns : List Nat) (k : Option Nat) (view : α → β) (d0 : α) :
